@@ -365,6 +365,11 @@ func (s *lsSim) genUpdate(k int) (pb.Update, jUp) {
 	switch {
 	case (c < 6 || s.forceSnap) && n.hasState && s.forceCnt == 0: // a restored snapshot: the log restarts at its index
 		idx := n.last + 1 + uint64(s.rng.Intn(4))
+		if os.Getenv("VERIF_LS_INNER") != "" && n.last > n.commit && s.rng.Intn(2) == 0 {
+			// the snapshot index lies inside the log (above the commit index): the entries after it are a
+			// stale suffix of another term, the logical log ends at the snapshot
+			idx = n.commit + 1 + uint64(s.rng.Intn(int(n.last-n.commit)))
+		}
 		n.lastTerm++
 		ud.Snapshot = pb.Snapshot{Index: idx, Term: n.lastTerm, Type: pb.RegularStateMachine}
 		ju.Ss, ju.SsT = idx, n.lastTerm
